@@ -39,6 +39,43 @@ def setup_path():
     os.environ.setdefault('PYTHONHASHSEED', '0')
 
 
+class CaseTimeout(BaseException):
+    """Not an Exception: nothing in the code under test may swallow it."""
+
+
+class case_alarm(object):
+    """Wall-clock guard around one case: a real dead-lock in the code under
+    test (a non-reentrant lock taken twice by one thread, say) must end as a
+    reported harness error, not as a check that never returns."""
+
+    fired = 0
+
+    def __init__(self, seconds=30):
+        self.seconds = seconds
+
+    def __enter__(self):
+        import signal
+        if case_alarm.fired >= 3:
+            raise Broken('three cases exceeded the wall-clock guard (dead-lock in the '
+                         'code under test?); no further cases are run')
+
+        self.hit = False
+
+        def onalarm(signum, frame):
+            if not self.hit:
+                self.hit = True
+                case_alarm.fired += 1
+            raise CaseTimeout('no result within %ds of wall time' % self.seconds)
+        self.old = signal.signal(signal.SIGALRM, onalarm)
+        signal.setitimer(signal.ITIMER_REAL, self.seconds, 2.0)   # keeps firing until disarmed
+
+    def __exit__(self, *a):
+        import signal
+        signal.setitimer(signal.ITIMER_REAL, 0)
+        signal.signal(signal.SIGALRM, self.old)
+        return False
+
+
 class Broken(Exception):
     """The tie or the proof is broken (not necessarily a violation)."""
 
